@@ -77,6 +77,19 @@ def rules(ck, P):
         bad = [nm for nm in names if nm not in NARROWING]
         ck.check(not bad, "R-FILTER", short + "|narrowing-only", "coverage is only narrowed at build time (%s)" % (names or "untouched"),
                  "coverage is modified by non-narrowing calls %s" % bad, ir.loc(bld))
+        # each zoom limit is fed by the same-named argument: set_zoom_min <- args.min, set_zoom_max <- args.max
+        for n, parents, _ in ir.walk(bld["body"]):
+            if n in pyr_calls and n["name"] in ("set_zoom_min", "set_zoom_max"):
+                want = n["name"].rsplit("_", 1)[-1]
+                ah = ir.local_hid(n["a"][0])
+                src = None
+                for p_ in parents:
+                    if p_.get("k") == "if" and p_["c"].get("k") == "letx" and any(x["hid"] == ah for x in ir.pat_binds(p_["c"]["pat"])):
+                        src = ir.place_str(p_["c"]["init"])
+                if src is None and ah in lets:
+                    src = ir.place_str(lets[ah])
+                ck.check(src is not None and src.split(".")[-1].rstrip("()") == want, "R-FILTER", "%s|%s-arg" % (short, n["name"]), "%s receives the `%s` argument (%s)" % (n["name"], want, src),
+                         "%s receives `%s`, not the `%s` argument" % (n["name"], src, want), ir.loc(n))
         # ---- (ii) lookup
         fw = [n for n in ir.walk_nodes(gtd["body"]) if n.get("k") == "mcall" and (n.get("q") or "").endswith("OperationTrait::get_tile_data")]
         cp = [x for p in gtd["params"] for x in ir.pat_binds(p) if x["t"].endswith("TileCoord3")]
